@@ -82,6 +82,14 @@ CLAIMED = {
    note=TB + "Termination of the delay rounds is relative to C06 and server fairness; goroutine timing of infiniteTransferBuffer is abstracted to 'some schedule ks'. D22 (exit 2 mid-exchange on an undownloadable object) is a known finding.",
    technique="Lean 4 proof (framing round trip, writer bounds, schedule-independent delay rounds) + protocol-level differential correspondence against the real filter-process",
    ref="§5 C14, Appendix I"),
+ "C09": dict(
+   text="Lean theorems over an operation-list model of the storage area (SIGKILL = any prefix): if a list runs under the storage discipline then every prefix leaves every object hash-valid; operations outside objects/ never "
+        "change local storage; for the store-one-object scenario a re-run after a kill at ANY operation reaches the uninterrupted state. Crash-point enumeration on the real binary (hooks at temp creation, every write burst, "
+        "every rename/link/unlink): one run per (point, occurrence) with SIGKILL, then every object re-hashed, leftovers confined, the command re-run and local storage compared with an uninterrupted run; the traced "
+        "operations of each scenario are replayed in the model (they must run under the discipline).",
+   note=TB + "Atomicity granularity is one write burst (the hook's), not one byte; power loss/fsync is out of scope by the property's own text; working-tree files are outside the property. The re-run theorem is proved for the create/append/rename shape only; fsck/prune re-runs are checked by enumeration.",
+   technique="Lean 4 proof (prefix-closed invariant over operation lists + re-run theorem) + exhaustive crash-point enumeration with SIGKILL on the real binary",
+   ref="§5 C09, Appendix O"),
 }
 PENDING_REASON = "check not built yet in this session (build in progress, see DESIGN.md §10); not claimed until its theorems and correspondence run"
 ALL = ["C%02d" % i for i in range(1, 21)]
